@@ -572,6 +572,15 @@ func runSpk(t *testing.T, prop string) {
 		}
 		b := &verifrt.BFS{New: func() verifrt.System { return newSpkSys(u) }, Roots: roots, MaxUser: depth, Horizon: 80, After: o.after, Res: res,
 			Deadline: time.Now().Add(verifrt.Budget())}
+		if prop == "C09" {
+			// a speaker that never settles does not converge at all: states from which no delivery order reaches quiescence
+			b.Quiescent = func(sys verifrt.System) bool { return sys.(*spkSys).settledModuloRetries() }
+			b.OnLivelock = func(hist []verifrt.Event, stuck int) {
+				c := o.mkCase(hist)
+				res.Violate("C09 the speaker never reaches quiescence: every delivery order keeps it re-syncing",
+					fmt.Sprintf("%d states from which no quiescent state is reachable by deliveries\n  history: %s", stuck, strings.Join(c.Readable, " ; ")), c)
+			}
+		}
 		for _, r := range roots {
 			b.Replay(r)
 			res.Sample(o.mkCase(r).Readable)
